@@ -107,6 +107,13 @@ func (w *World) Exec(o *tr.Op) string {
 		return tr.Hex(sc)
 	case "addr.deposit":
 		return w.addrDeposit(o)
+	case "addr.verify":
+		// the deposit verifiers on arbitrary scripts: accepted (1) or not (0)
+		pk := PubKeyOf(o.Str("kind"), o.Bytes("key"))
+		if o.Str("version") == "0" {
+			return tr.B(bitcointypes.VerifyDespositScriptV0(pk, o.Bytes("evm"), o.Bytes("out0")) == nil)
+		}
+		return tr.B(bitcointypes.VerifyDespositScriptV1(pk, o.Bytes("magic"), o.Bytes("evm"), o.Bytes("out0"), o.Bytes("out1")) == nil)
 
 	// ------------------------------------------------------------------ relayer / bridge messages
 	case "tx.hashes", "tx.pubkey", "tx.deposits", "tx.process", "tx.replace", "tx.finalize", "tx.approve", "tx.consolidate", "tx.newvoter", "tx.accept":
